@@ -678,6 +678,18 @@ func main() {
 			g = append(g, f[14:]...)
 			inputs = append(inputs, in{g, fmt.Sprintf("header-len-%d:%s", 6+extra, names[i])})
 		}
+		if i < 12 {
+			// header fields no reader supports (format 3, 255, 0x0100; a division of 0):
+			// refused from memory, refused however the bytes arrive
+			for _, hv := range [][3]int{{9, 3, -1}, {9, 255, -1}, {8, 1, -1}, {12, 0, 13}} {
+				g := append([]byte{}, f...)
+				g[hv[0]] = byte(hv[1])
+				if hv[2] >= 0 {
+					g[hv[2]] = 0
+				}
+				inputs = append(inputs, in{g, fmt.Sprintf("header-byte-%d=%d:%s", hv[0], hv[1], names[i])})
+			}
+		}
 		for _, last := range al16 {
 			for _, cut := range []int{0, 1, 3, 4} {
 				if len(f)-cut < 20 {
